@@ -223,8 +223,11 @@ func (g *netGen) genTopology(extra float64) {
 }
 
 func (g *netGen) sub(i, t int, lazy bool) {
+	// Small buffers only for consumers that are not running: a running consumer races with the
+	// event loop when several messages arrive in one RPC (the library drops for slow subscribers by
+	// design, and which side wins is the Go scheduler's choice, not the simulator's).
 	buf := 0
-	if lazy || g.r.chance(0.2) {
+	if lazy {
 		buf = g.r.rng(1, 4)
 	}
 	l := int64(0)
@@ -538,6 +541,8 @@ func (g *netGen) genC18() {
 // run
 
 func runNet(s *sim) {
+	s.scheduleWriters()
+	defer func() { verifYieldQueueFn = nil }()
 	w := newNetWorld(s)
 	if !w.start() {
 		return
